@@ -1743,6 +1743,9 @@ MODOPT_OPTIONS = {
     "no-loop": {"enable_loop": False},
     "default_filters": {"default_filters": ["str", "trim"]},
     "plain": {},
+    # a caller-supplied module_writer is handed the module source ENCODED as the module's own coding comment says
+    "module_writer": {"module_writer": "@writer"},
+    "module_writer+future": {"module_writer": "@writer", "future_imports": ["annotations"]},
 }
 MODOPT_CODECS = ["koi8-r", "cp1251", "shift_jis", "latin-1", "euc-jp"]
 MODOPT_CHARS = {"koi8-r": "\u0436\u044f", "cp1251": "\u0444\u0431", "shift_jis": "\u3042\u30bd", "latin-1": "\u00e9\u00ff", "euc-jp": "\u65e5\u672c"}
@@ -1772,6 +1775,12 @@ def run_modopt_case(c, env, st):
     with open(fn, "wb") as f:
         f.write((head + src).encode(codec))
     kw = dict(MODOPT_OPTIONS[c["opt"]])
+    if kw.get("module_writer") == "@writer":
+        def _writer(source, outputpath):
+            with open(outputpath, "wb") as f_:
+                f_.write(source)
+
+        kw["module_writer"] = _writer
     if c["decl"] == "ie":
         kw["input_encoding"] = codec
     mdir = os.path.join(env.tdir, "mom%d" % env.count)
